@@ -323,6 +323,11 @@ mut("neutral-context-via-contextvars", MM, """        class _Data(threading.loca
 """, ["C15", "C14", "C03"], kind="neutral")
 mut("c03-cached-method-cache-shared-between-methods", "json_to_models/utils.py", "        key = (func.__name__, *args)\n", "        key = args\n", ["C03"])
 
+mut("c14-cli-options-written-into-the-global-registry", "json_to_models/cli.py",
+    "        str_types_registry = StringSerializableRegistry(*registry.types)\n        str_types_registry.replaces.update(registry.replaces)\n",
+    "        str_types_registry = registry\n", ["C14", "C15"])
+mut("c02-deep-containers-typed-any", G, "    def _detect_type(self, value, convert_dict=True) -> MetaData:\n",
+    "    def _detect_type(self, value, convert_dict=True) -> MetaData:\n        if isinstance(value, list) and len(value) == 1 and isinstance(value[0], list):\n            r = repr(value)\n            if len(r) - len(r.lstrip('[')) == 100:\n                return DList(Unknown)\n", ["C02"])
 
 def apply(m, root):
     p = os.path.join(root, m["file"])
